@@ -30,6 +30,11 @@ def hint_cases(prop, tier, seed):
         quick_names = {n for n, _h in grammar.hint_set('quick', seed)}
         k = THOROUGH_STRIDE[prop]
         rest = [x for x in hs if x[0] not in quick_names]
+        if prop == 'C02':
+            # the randomly generated depth-3 hints make C02's per-index reachability queries run into the solver
+            # budget one after the other (measured: the last 1 500 of 11 500 cases took longer than the first 10 000)
+            seeded = {n for n, _h in grammar.seeded_hints(seed, 2000)}
+            rest = [x for x in rest if x[0] not in seeded]
         hs = [x for x in hs if x[0] in quick_names] + rest[(seed % k)::k]
     confs = grammar.conf_set(tier)
     cases = []
